@@ -256,6 +256,8 @@ def _batch_file(path, runs, eof=False):
             f.write(json.dumps({"e": "reset", "pid": pid, "run": j + 1}) + "\n")
             n += 1
             for r in recs:
+                if r.get("e") == "xend":
+                    r = dict(r, run=j + 1)       # the outcome printed by TXEnd is attributed to this execution
                 f.write(json.dumps(r) + "\n")
                 n += 1
             ranges.append((start, n))
